@@ -591,11 +591,7 @@ _ATTR_CASES_IN_CHILD = [
 ]
 
 
-def _layout_child():
-    """(runs in a fresh interpreter whose heap was perturbed BEFORE the library was imported.)  The handlers of operations that
-    extensions register (assign, delete) are filed in an order that follows a set of type objects, i.e. their addresses: whichever
-    order this process got, item containers with attributes are assigned by item"""
-    out = {'cases': [], 'order': None}
+def registry_order(op):
     try:
         names = []
 
@@ -603,11 +599,18 @@ def _layout_child():
             for t, sub in tree.items():
                 names.append(t.__name__)
                 walk(sub)
-        walk(gcore_registry()._op_type_tree['assign'])
-        out['order'] = 'duck-type-filed-%s-dict-and-%s-list' % ('before' if names.index('_ObjStyleKeys') < names.index('dict') else 'after',
-                                                               'before' if names.index('_ObjStyleKeys') < names.index('list') else 'after')
+        walk(gcore_registry()._op_type_tree[op])
+        return 'duck-type-filed-%s-dict-and-%s-list' % ('before' if names.index('_ObjStyleKeys') < names.index('dict') else 'after',
+                                                        'before' if names.index('_ObjStyleKeys') < names.index('list') else 'after')
     except Exception as e:
-        out['order'] = 'unobservable:%s' % type(e).__name__
+        return 'unobservable:%s' % type(e).__name__
+
+
+def _layout_child():
+    """(runs in a fresh interpreter whose heap was perturbed BEFORE the library was imported.)  The handlers of operations that
+    extensions register (assign, delete) are filed in an order that follows a set of type objects, i.e. their addresses: whichever
+    order this process got, item containers with attributes are assigned by item"""
+    out = {'cases': [], 'order': registry_order('assign')}
     for desc, path, edit in _ATTR_CASES_IN_CHILD:
         t, twin = _attr_holders(), _attr_holders()
         if edit is not None:
@@ -624,15 +627,14 @@ def gcore_registry():
     return gcore._DEFAULT_SCOPE[gcore.TargetRegistry]
 
 
-def attribute_vs_item_in_fresh_processes(col, n_children):
+def attribute_vs_item_in_fresh_processes(col, n_children, module='c11', prop='C11', counter='assignments_attempted', verb='assign'):
     """the same question asked in several fresh interpreters with differently laid out heaps"""
     import concurrent.futures
 
     def one(k):
-        code = ('junk = [bytearray(600 + 16 * %d * i) for i in range(1, 4)]\n'
-                'from rv.checks import c11\nc11._layout_child()\n' % k)
+        code = 'from rv.checks import %s as m\nm._layout_child()\n' % module
         try:
-            p = subprocess.run([sys.executable, '-c', code], env=env.child_env({'RV_LAYOUT_PAD': 'p' * (977 * (k % 13))}), cwd=env.VERIF_DIR, timeout=300,
+            p = subprocess.run([sys.executable, '-c', code], env=env.child_env({'RV_LAYOUT_PERTURB': str(k)}), cwd=env.VERIF_DIR, timeout=300,
                                stdout=subprocess.PIPE, stderr=subprocess.STDOUT, text=True)
         except subprocess.TimeoutExpired:
             return k, None, 'timeout'
@@ -640,8 +642,8 @@ def attribute_vs_item_in_fresh_processes(col, n_children):
         if p.returncode != 0 or not line:
             return k, None, p.stdout[-1500:]
         return k, json.loads(line[0][7:]), None
-    ks = [0, 1, 2, 3, 5, 7, 11, 17, 29, 53, 101, 211, 4, 6, 8, 9][:n_children]
-    with concurrent.futures.ThreadPoolExecutor(max_workers=6) as ex:
+    ks = list(range(n_children))
+    with concurrent.futures.ThreadPoolExecutor(max_workers=8) as ex:
         for k, d, err in ex.map(one, ks):
             if err:
                 col.fail_inconclusive('fresh-process child (heap perturbation %d) failed: %s' % (k, err))
@@ -650,12 +652,12 @@ def attribute_vs_item_in_fresh_processes(col, n_children):
             col.count('fresh_process_registry_order:' + str(d['order']))
             for desc, ok, detail in d['cases']:
                 col.case(('attr-vs-item-fresh-process', desc, d['order']), True)
-                col.count('assignments_attempted')
+                col.count(counter)
                 col.count('attribute_vs_item_cases')
                 if not ok:
-                    col.violation('C11/container-subclass-with-attributes:wrong-namespace',
-                                  "fresh process (heap perturbation %d, registry order %s): assign(.., %r, 'NEW') [%s]: %s"
-                                  % (k, d['order'], desc, desc, detail), None)
+                    col.violation('%s/container-subclass-with-attributes:wrong-namespace' % prop,
+                                  "fresh process (heap perturbation %d, registry order %s): %s [%s]: %s"
+                                  % (k, d['order'], verb, desc, detail), None)
 
 
 def reused_assign_object(col, rng):
@@ -703,7 +705,7 @@ def run(ctx):
         reused_assign_object(col, rng)
         missing_before_wildcard(col)
         attribute_vs_item_on_container_subclasses(col)
-        attribute_vs_item_in_fresh_processes(col, 8 if not ctx.thorough else 12)
+        attribute_vs_item_in_fresh_processes(col, 24 if not ctx.thorough else 64)
         wildcard_over_mixed_kinds_and_equal_holders(col)
     for i in range(ctx.n(300, 3000)):
         one_target(col, rng)
